@@ -65,21 +65,32 @@ def snapshot(a):
     return ('val', a)
 
 
+def _b(e):
+    e = z3.simplify(e)
+    if z3.is_true(e):
+        return True
+    if z3.is_false(e):
+        return False
+    return e
+
+
 def same_terms(x, y):
-    """Conjunction (z3 or bool) saying two scalars are the same value."""
+    """True / False / z3 formula saying two scalars are the same value."""
     if x is y:
         return True
     if isinstance(x, core.Sym) or isinstance(y, core.Sym):
         if isinstance(x, core.SymBits) or isinstance(y, core.SymBits):
             if not (isinstance(x, core.SymBits) and isinstance(y, core.SymBits)):
                 return False
-            return z3.simplify(x.e == y.e)
+            return _b(x.e == y.e)
         if isinstance(x, core.SymFP) or isinstance(y, core.SymFP):
             # bit-for-bit (NaN == NaN, +0 != -0)
-            return z3.simplify(core.fp_const(x) == core.fp_const(y))
+            return _b(core.fp_const(x) == core.fp_const(y))
         if isinstance(x, SymBool) or isinstance(y, SymBool):
-            return z3.simplify(core.as_bool(x) == core.as_bool(y))
-        return z3.simplify(core.as_real(x) == core.as_real(y))
+            return _b(core.as_bool(x) == core.as_bool(y))
+        if x is None or y is None:
+            return False
+        return _b(core.as_real(x) == core.as_real(y))
     if x is None or y is None:
         return x is y
     return x == y
